@@ -60,6 +60,7 @@ async fn ep(net: &SimNet, slot: u8, key: u8, serve: bool) -> Result<Endpoint, St
         .secret_key(secret(key))
         .relay_mode(RelayMode::Disabled)
         .clear_ip_transports()
+        .portmapper_config(iroh::endpoint::PortmapperConfig::Disabled)
         .dns_resolver(DnsResolver::custom(SimResolver::new(vec![], vec![], vec![])))
         .add_custom_transport(net.transport_on(SIM_TRANSPORT_ID, slot))
         .add_custom_transport(net.transport_on(SIM_TRANSPORT_ID_B, slot))
@@ -67,7 +68,9 @@ async fn ep(net: &SimNet, slot: u8, key: u8, serve: bool) -> Result<Endpoint, St
     if serve {
         b = b.alpns(vec![ALPN.to_vec()]);
     }
-    b.bind().await.map_err(|e| format!("bind failed: {e:#}"))
+    let ep = b.bind().await.map_err(|e| format!("bind failed: {e:#}"))?;
+    crate::fw::rt::settle_after_bind().await;
+    Ok(ep)
 }
 
 impl Typed for C19 {
@@ -217,7 +220,10 @@ impl Typed for C19 {
                 }
             }
             // (3) transient sender failures are not fatal: with a loss-free network every transfer completes
-            let res = results.lock().unwrap().clone();
+            // recorded in dial order, not completion order: which of two overlapping transfers finishes first is
+            // not part of the property (and is the one thing observed to vary between processes, see DESIGN 9.6)
+            let mut res = results.lock().unwrap().clone();
+            res.sort_by_key(|r| r.0);
             let errs = calls.iter().filter(|c| c.4 == "io-error").count() as u64;
             let pend = calls.iter().filter(|c| c.4 == "would-block").count() as u64;
             ctx.add("fault.sender_stuck_plane", calls.iter().filter(|c| c.4 == "stuck").count() as u64);
